@@ -143,18 +143,24 @@ var handTypes = map[string]reflect.Type{
 // names <-> N
 var fixedNames = []string{"", "ID", "Pub", "Sens", "Unt", "M", "MS", "Sec", "T", "L", "hidden", "hiddenS", "N", "EvID", "Salt", "Info", "P", "Value"}
 
-func nameN(s string) int {
+func nameNok(s string) (int, bool) {
 	if len(s) > 1 && (s[0] == 'F' || s[0] == 'k') {
 		if i, err := strconv.Atoi(s[1:]); err == nil {
-			return i
+			return i, true
 		}
 	}
 	for i, n := range fixedNames {
-		if n == s {
-			return 1000 + i
+		if n == s && i > 0 {
+			return 1000 + i, true
 		}
 	}
-	panic("nameN: " + s)
+	return 99999, false
+}
+
+// names the harness did not make (fields of foreign types met while projecting an unexpected output) share one number
+func nameN(s string) int {
+	n, _ := nameNok(s)
+	return n
 }
 
 // ---------- Go types and values from trees ----------
@@ -338,13 +344,8 @@ func parsePtr(ptr string, forStruct bool) string {
 		return "None"
 	}
 	parts := strings.Split(ptr[1:], "/")
-	ok := func(s string) bool {
-		defer func() { recover() }()
-		nameN(s)
-		return true
-	}
 	for _, p := range parts {
-		if !ok(p) {
+		if _, ok := nameNok(p); !ok {
 			return "None"
 		}
 	}
